@@ -248,6 +248,7 @@ func GenWorld(g G, o GenOpts) *World {
 			for _, p := range parents {
 				seen[p] = true
 			}
+
 			for len(parents) < np && len(seen) < len(commits) {
 				p := commits[g.Pick(len(commits), "parent")].ID
 				if seen[p] {
@@ -262,6 +263,10 @@ func GenWorld(g G, o GenOpts) *World {
 				seen[p] = true
 				parents = append(parents, p)
 			}
+		}
+		if len(parents) > 0 && len(parents) < 40 && dupParentWanted(g, len(commits)) {
+			// the same parent named twice: git counts every parent line
+			parents = append(parents, parents[g.Pick(len(parents), "dupwhich")])
 		}
 		var date int64
 		switch g.Pick(4, "dateshape") {
@@ -440,6 +445,10 @@ func GenWorld(g G, o GenOpts) *World {
 	}
 	w.Extras.Noise = g.Chance(1, 3, "noise")
 	return w
+}
+
+func dupParentWanted(g G, ncommits int) bool {
+	return ncommits > 0 && g.Rare(1, 12, "dupparent")
 }
 
 func refConflicts(used map[string]bool, name string) bool {
